@@ -157,4 +157,22 @@ theorem PiBas.mismatch_is_loud (raw : RawCfg) (cfg : ChainCfg) (hcfg : PiBas.cfg
   · obtain ⟨p, hp, hpne⟩ := hdb
     exact ⟨p, hp, fun chs hch => by cases hch; exact hpne⟩
 
+/-- SSE-2: REFUSED OR CORRECT, with nothing in between and nothing assumed about the run — for EVERY raw configuration the
+    builder either refuses it, or the scheme it yields sets up every valid database under every key half of `param_k` bytes,
+    generates the token of every stored keyword and answers it with exactly its list (`C01.SSE2.correct`).  There is no
+    accepted SSE-2 configuration that raises later or answers wrongly: the bit widths of the address (`8·param_l` for the
+    keyword, `bits(n + max)` for the counter) are all derived inside the builder. -/
+theorem SSE2.refused_or_correct (raw : RawCfg) (lv : Leaves) (hl : LeafLaws lv) :
+    (∃ e, SSE2.cfgBuild raw = .error e) ∨
+    ∃ cfg, SSE2.cfgBuild raw = .ok cfg ∧
+      ∀ (K1 : Bytes) (db : DB), (K1.length : Int) = cfg.k → (db.map (·.1)).Nodup →
+        (∀ p ∈ db, NoLeadingNul p.1 ∧ (p.1.length : Int) ≤ cfg.l ∧ p.2.length ≤ cfg.n.toNat) →
+        (∀ id, (db.flatMap (·.2)).count id ≤ cfg.max) →
+        ∃ I, SSE2.setup cfg lv K1 db = .ok I ∧
+          ∀ w ids, (w, ids) ∈ db → ∃ tk, SSE2.token cfg lv K1 w = .ok tk ∧ SSE2.search I tk = ids := by
+  cases hc : SSE2.cfgBuild raw with
+  | error e => exact Or.inl ⟨e, rfl⟩
+  | ok cfg =>
+    exact Or.inr ⟨cfg, rfl, fun K1 db hK hkeys hvalid hcap => C01.SSE2.correct raw cfg hc lv hl K1 hK db hkeys hvalid hcap⟩
+
 end SSEPy.C08
